@@ -305,8 +305,40 @@ def tiling_clauses(points, lat, P, S, T, vt, shifted):
     return bad
 
 
+def exact_cells_contain_seeds(P, S, T):
+    """exact: for every corner of every triangle of the certificate, the polygon of the exact circumcentres of the
+    triangles around that seed (walked through shared sides) contains the seed"""
+    side = neighbours(T)
+    for t in T:
+        for k in range(3):
+            p = t[k]                              # the seed site we walk around
+            poly, cur, ck, tr = [], t, k, (0, 0)
+            for _ in range(64):
+                (nx, ny), m = ref_point(P, S, cur, False)
+                poly.append((Fraction(nx, m) + S * tr[0], Fraction(ny, m) + S * tr[1]))
+                # leave through the side (corner ck+2 -> corner ck); the neighbour has it reversed
+                a, b = cur[(ck + 2) % 3], cur[ck]
+                key = skey(b, a)
+                if key not in side:
+                    return False
+                tj, sj, off = side[key]           # neighbour side sj goes b' -> a', b' has offset `off`
+                d0 = (b[1][0] - off[0], b[1][1] - off[1])
+                tr = (tr[0] + d0[0], tr[1] + d0[1])
+                cur, ck = T[tj], sj               # in the neighbour our seed is the start corner of side sj
+                if (tj, ck, tr) == (T.index(t), k, (0, 0)):
+                    break
+            else:
+                return False
+            q = (Fraction(P[p[0]][0]) + S * p[1][0], Fraction(P[p[0]][1]) + S * p[1][1])
+            if point_in_polygon(q, poly) != 1:
+                return False
+    return True
+
+
 def unshifted_containment_ok(points):
-    """the same point set with shift_vertices=False: every plaquette contains its seed (exact)"""
+    """the same point set with shift_vertices=False: every plaquette contains its seed (exact).  When koala's
+    unshifted run is itself not evaluable (a float circumcentre within 1e-9 of the cell boundary: non-generic for
+    shift_vertices=False) the exact Voronoi cells of the certificate are used instead."""
     try:
         n = len(points)
         lat = voronization.generate_lattice(points.copy(), shift_vertices=False)
@@ -314,6 +346,8 @@ def unshifted_containment_ok(points):
         S = max(common_scale(points), common_scale(Lpos))
         P = [(int(Fraction(float(x)) * S), int(Fraction(float(y)) * S)) for x, y in points]
         T = build_cert(P, S, False, 3 if n <= 10 else 2)
+        if len(T) == 2 * n and float_margins(P, S, T, False)[1] < 1e-9:
+            return exact_cells_contain_seeds(P, S, T)
         if len(T) != 2 * n or len(Lpos) != 2 * n:
             return False
         refs = np.array([[float(Fraction(r[0][0], r[1] * S)), float(Fraction(r[0][1], r[1] * S))]
@@ -322,6 +356,19 @@ def unshifted_containment_ok(points):
         return not tiling_clauses(points, lat, P, S, T, [int(v) for v in vt], False)
     except Exception:
         return False
+
+
+def window_has_cocircular(points):
+    """Qhull's Voronoi diagram of the replicated window (exactly what koala computes) has a vertex with more than
+    three ridges, i.e. four (nearly) co-circular points with an empty circle inside the finite window"""
+    from scipy.spatial import Voronoi
+    try:
+        vor = Voronoi(voronization.generate_point_array(points, 1 if len(points) > 10 else 2))
+        ri = np.array([r for r in vor.ridge_vertices])
+        cnt = np.bincount(ri[ri >= 0].flatten(), minlength=len(vor.vertices))
+        return bool(np.any(cnt != 3))
+    except Exception:
+        return True
 
 
 # ------------------------------------------------------------------ evaluation
@@ -387,7 +434,14 @@ def evaluate(ctx, cases, label, lloyd=True):
             P, S = exact_points(points)
             T = build_cert(P, S, case["shift"], 3 if n <= 10 else 2)
             res.count(fam)
-            if len(T) == 2 * n:
+            if len(T) == 2 * n and float_margins(P, S, T, case["shift"])[0] < 1e-9:
+                res.skip("nongeneric-cocircular<1e-9")
+            elif window_has_cocircular(points):
+                # four co-circular points among the replicated images (e.g. two seeds with equal x: rectangle p, q, p+(1,0), q+(1,0)),
+                # visible only at the hull of the finite window: not "general position"; counted, observation outside the property
+                res.skip("nongeneric-cocircular-images-in-window")
+                ex.setdefault("cocircular_window_exceptions", []).append({"points": points.tolist(), "exception": c["exception"][:80]}) if len(ex.get("cocircular_window_exceptions", [])) < 5 else None
+            elif len(T) == 2 * n:
                 res.violation("generator-exception", f"generate_lattice raised {c['exception']} on {n} {case['style']} points", case)
             else:
                 res.skip("generator-exception-on-sparse-input")
